@@ -23,6 +23,9 @@ type c17Op struct {
 	Kind  string `json:"k"` // nowait | wait | waitacks | getrules | getstatus | close | setpid-nowait | setpid-wait
 	Errno int    `json:"errno,omitempty"`
 	N     int    `json:"n,omitempty"` // getrules: number of rules
+	// SendFail: the transport refuses to send this request (ENOBUFS): nothing reaches the kernel, so no
+	// ACK will ever come for it and nothing may be left waiting for one
+	SendFail bool `json:"send_fails,omitempty"`
 }
 
 type c17Case struct {
@@ -39,6 +42,9 @@ func (k *c17Case) String() string {
 		fmt.Fprintf(&sb, "%s", o.Kind)
 		if o.Errno != 0 {
 			fmt.Fprintf(&sb, "(errno %d)", o.Errno)
+		}
+		if o.SendFail {
+			sb.WriteString("(send fails)")
 		}
 		if o.Kind == "getrules" {
 			fmt.Fprintf(&sb, "(%d)", o.N)
@@ -110,6 +116,25 @@ func c17Check(c *mon.Ctx, k *c17Case) {
 	for i, op := range k.Ops {
 		reqErr, reqRules = op.Errno, op.N
 		recv0, deliv0, empty0, sent0 := sim.NRecv, sim.NDeliver, sim.NEmpty, len(sim.Sent)
+		if op.SendFail {
+			wm := libaudit.NoWait
+			if op.Kind == "wait" {
+				wm = libaudit.WaitForReply
+			}
+			sim.SendErr = syscall.ENOBUFS
+			err := setter(wm, false)
+			sim.SendErr = nil
+			if err == nil {
+				fail("send-error-swallowed", "op %d (%s): the transport refused to send the request (ENOBUFS) but the setter returned nil", i, op.Kind)
+				return
+			}
+			if sim.NRecv != recv0 {
+				fail("receives-after-failed-send", "op %d (%s): the request was never sent, yet the call performed %d receives", i, op.Kind, sim.NRecv-recv0)
+				return
+			}
+			c.Add("requests_whose_send_failed", 1)
+			continue // not outstanding: no ACK will come
+		}
 		switch op.Kind {
 		case "nowait", "setpid-nowait":
 			err := setter(libaudit.NoWait, op.Kind == "setpid-nowait")
@@ -315,6 +340,9 @@ func c17Gen(r *mon.Rand, withK4 bool) *c17Case {
 			}
 			if r.Chance(1, 8) {
 				op.Kind = "setpid-nowait"
+			} else if r.Chance(1, 8) {
+				op.SendFail, op.Errno = true, 0
+				outstanding--
 			}
 			outstanding++
 		case x < 60:
@@ -324,6 +352,8 @@ func c17Gen(r *mon.Rand, withK4 bool) *c17Case {
 			op = c17Op{Kind: "wait", Errno: mon.Pick(r, errnos)}
 			if r.Chance(1, 6) {
 				op.Kind = "setpid-wait"
+			} else if r.Chance(1, 10) {
+				op.SendFail, op.Errno = true, 0
 			}
 		case x < 88:
 			op = c17Op{Kind: "getrules", N: r.Intn(4), Errno: mon.Pick(r, []int{0, 0, 0, int(syscall.EPERM)})}
